@@ -434,7 +434,11 @@ def failed_obligation_keys(meta, f):
 # Bounded stand-ins for ASSUMED callees (labelled bounded, never counted as proved): twin family,
 # the known-finding obligation id, and the committed list of case numbers known to fail.
 BOUNDED = {
-    "C04": [dict(family="refspanic", obligation="conversion/bounded-standin/refs.no_panic",
+    "C04": [dict(family="front", args_quick=["--depth", "1"], args_thorough=["--depth", "2"],
+                 obligation="frontend/bounded-standin/front.extract",
+                 known_cases="contracts/known_front_cases.txt",
+                 what="the frontend, printer and glue (swc ASTs, trait objects, symbol tables: outside Verus' dialect) through the public entry point beff_core::extract: every program `type X = E; parse.buildParsers<{X: X}>()` for E built from 22 leaf types (basic types, literals, named object/union/tuple/recursive/generic types) with one type constructor out of 38 unary and 14 binary ones (arrays, tuples, objects, mapped and conditional types, keyof, indexed access, Record/Partial/Pick/Omit/Exclude/Extract, template literals, ...) - 7657 programs in the quick tier; a second constructor on top, thinned, in the thorough tier - 163577 programs; plus 23 hand-written multi-file / malformed / circular projects. Checked per program, as the property states it: the call returns within 20 s, does not panic or crash the process, returns generated code (emit_code Ok and non-empty) or at least one diagnostic, and every diagnostic names a file of the project and a range inside it. NOT checked: that the emitted module loads in Node"),
+            dict(family="refspanic", obligation="conversion/bounded-standin/refs.no_panic",
                  known_cases="contracts/known_refspanic_cases.txt",
                  what="convert_to_sem_type + is_subtype on named, possibly recursive types (not under contract): the 23769 questions of the `refs` family (see C05), a case fails only when the real code PANICS")],
     "C06": [dict(family="proper", obligation="proper_subtype/bounded-standin/proper.sub_vec",
@@ -455,7 +459,7 @@ BOUNDED = {
 }
 
 
-def run_bounded(pid, known):
+def run_bounded(pid, known, tier="quick"):
     """-> (violations, known_lines, evidence_rows, notes)"""
     rows, viols, klines, notes = [], [], [], []
     specs = BOUNDED.get(pid, [])
@@ -469,7 +473,10 @@ def run_bounded(pid, known):
     if err:
         return viols, klines, rows, ["bounded stand-ins not run: the twin does not build against the current tree: " + err[-300:]]
     for sp in specs:
-        rc, out, stderr = twin.run([sp["family"]])
+        fam_args = [sp["family"]] + sp.get("args_thorough" if tier == "thorough" else "args_quick", [])
+        rc, out, stderr = twin.run(fam_args)
+        if not out:
+            notes.append("bounded stand-in %s produced no result (rc %s): %s" % (sp["family"], rc, stderr[-300:]))
         for r in out:
             if r.get("panic"):
                 viols.append(dict(id=sp["obligation"] + ":panic", kind="bounded", fn=None, clause=None, unit="twin",
@@ -491,14 +498,14 @@ def run_bounded(pid, known):
                 for k in kn:
                     klines.append((k, dict(id=sp["obligation"]), "%d of %d cases of the bounded stand-in fail (all listed in %s)" % (len(still), r.get("cases"), sp["known_cases"])))
             if new:
-                rc2, out2, _ = twin.run([sp["family"], "--case", str(new[0])])
+                rc2, out2, _ = twin.run(fam_args + ["--case", str(new[0])])
                 first = (out2[0].get("first") if out2 else None) or {}
                 viols.append(dict(id=sp["obligation"], kind="bounded", fn=r.get("fn"), clause=None, unit="twin",
                                   message="bounded stand-in for an assumed callee: %d case(s) fail that are not known findings (first: case %d)" % (len(new), new[0]),
                                   rendered="input: %s\nobserved: %s\nrequired: %s" % (first.get("input"), first.get("observed"), first.get("required")), where={},
                                   found=dict(family=sp["family"], fn=r.get("fn"), case=new[0], input=first.get("input"), observed=first.get("observed"),
                                              required=first.get("required"), new_failing_cases=new[:50],
-                                             replay_args=[sp["family"], "--case", str(new[0])])))
+                                             replay_args=fam_args + ["--case", str(new[0])])))
     return viols, klines, rows, notes
 
 
@@ -665,7 +672,7 @@ def check(pid, tier, seed, rebaseline=False):
     pool.shutdown()
     bounded_rows = []
     if pid in BOUNDED and not rebaseline:
-        bv, bk, bounded_rows, bn = run_bounded(pid, known)
+        bv, bk, bounded_rows, bn = run_bounded(pid, known, tier)
         violations += bv
         notes += bn
         for k, f, txt in bk:
